@@ -206,6 +206,11 @@ def run_case(ctx, rng, cfg, ops, tmpdir):
 def run(ctx):
     tmpdir = tempfile.mkdtemp(prefix='verif-c06-')
     try:
+        from harness.props import c01
+        for cfg in c01.directed_cfgs(ctx, None)[:4 if ctx.quick else 12]:
+            for label, ops in gen.directed(cfg):
+                ctx.dist['family:directed:%s' % label.split('-')[0]] += 1
+                run_case(ctx, random.Random(11), cfg, ops, tmpdir)
         n = 60 if ctx.quick else 1500
         for _ in range(n):
             seed = ctx.rng.randrange(2 ** 62)
